@@ -681,6 +681,19 @@ def h_load( ctx ):
                      'the `for` header has already taken the next record from the file generator; returning here discards it - with load( limit=N ) one record is lost at every limit-triggered return' )
         elif rets_in:
             res.ok( src, rets_in[0].stmt, 'every return inside the record loop comes after the pulled record was classified and queued (%d returns)' % len( rets_in ))
+    # ---- a record whose payload cannot be used is skipped, whatever the failure: both conversions of the payload ( json.loads of the text,
+    #      int() of register numbers / values ) sit in a try whose handler catches Exception and turns the record into a note - a narrower
+    #      handler lets e.g. the TypeError of int( None ) reach the outer catch-all, which FAILS the whole replay
+    convs = [ c for c in ast.walk( lp ) if ( is_call_to( c, 'json.loads' ) or ( is_call_to( c, 'dict' ) and any( is_call_to( x, 'int' ) for x in ast.walk( c )))) ]
+    for c in convs:
+        tr_ = [ a for a in src.ancestors( c ) if isinstance( a, ast.Try ) and any( c is x for b in a.body for x in ast.walk( b )) and any( a is y for y in ast.walk( lp )) ]
+        what = 'json.loads of the record text' if is_call_to( c, 'json.loads' ) else 'conversion of the register map'
+        if tr_ and any(( h.type is None or dotted( h.type ) in ( 'Exception', 'BaseException' )) and not any( isinstance( r_, ast.Raise ) and r_.exc is None for r_ in ast.walk( h )) for h in tr_[0].handlers ):
+            res.ok( src, tr_[0], '%s: any failure turns the record into a note (catch-all handler)' % what )
+        else:
+            hs_ = [ txt( h.type ) if h.type is not None else 'bare' for h in tr_[0].handlers ] if tr_ else []
+            res.bad( src, tr_[0] if tr_ else c, '%s is protected only against %s' % ( what, hs_ or 'nothing' ),
+                     'a corrupt record must be skipped without losing the records around it: an exception type outside this handler (e.g. TypeError from int( None ) for {"40001": null}) reaches the outer catch-all and the loader goes FAILED - every later record is lost' )
     # ---- a not-yet-due announcement switches to AWAITING and leaves the loop without consuming anything
     aw = [ s for s in lp.body if isinstance( s, ast.If ) and pmatch( s.test, '%s is None' % JS ) ]
     if aw and any( isinstance( b, ast.Break ) for b in aw[0].body ) and any( isinstance( b, ast.Assign ) and 'AWAITING' in attrs_in( b.value ) for b in aw[0].body ):
